@@ -149,9 +149,10 @@ class Kind:
 
 
 class PanelKind(Kind):
-    def __init__(self, model):
+    def __init__(self, model, ortho=False):
         self.model = model
-        self.name = 'Panel/' + model
+        self.ortho = ortho
+        self.name = 'Panel/' + model + ('/ortho' if ortho else '')
         self.warmup = ('k0',)
 
     def make(self, seed):
@@ -163,6 +164,8 @@ class PanelKind(Kind):
         p.add_force(1.2, 0.77, 0., 2., -12., cte=False)
         p.num_eigvalues = 2
         p.nx = p.ny = 6
+        if self.ortho:
+            p.force_orthotropic_laminate = True
         return p
 
     def ops(self, seed):
@@ -170,6 +173,10 @@ class PanelKind(Kind):
         c = _c_for(size, seed)
         c[2::3] *= 3.0
         xs, ys = _pts(seed)
+        # a laminate table owned by the caller (6 x 6 points, unbalanced laminate: the 16 / 26 terms are not zero)
+        from ..ref import laminate as rl
+        Ftab = np.ascontiguousarray(np.broadcast_to(rl.abd([30., -60., 17.3], [pan.PLYT] * 3, [pan.M6] * 3)['ABD'], (6, 6, 6, 6))).copy()
+        Ftab *= (1.0 + 0.2 * np.cos(np.arange(36.0)).reshape(6, 6))[:, :, None, None]
 
         def pure(fn, *arrs):
             def run(p):
@@ -199,6 +206,8 @@ class PanelKind(Kind):
             'kT': pure(lambda p, c_: p.calc_kT(c=c_, silent=True), c),
             'kG0c': pure(lambda p, c_: p.calc_kG0(c=c_, silent=True), c),
             'fint': pure(lambda p, c_: np.asarray(p.calc_fint(c_, silent=True)), c),
+            'kT_table': pure(lambda p, c_, F_: p.calc_kT(c=c_, nx=6, ny=6, Fnxny=F_, silent=True), c, Ftab),
+            'fint_table': pure(lambda p, c_, F_: np.asarray(p.calc_fint(c_, nx=6, ny=6, Fnxny=F_, silent=True)), c, Ftab),
             'fext': lambda p: p.calc_fext(silent=True),
             'fext.4': lambda p: p.calc_fext(inc=0.4, silent=True),
             'static': lambda p: [np.asarray(v) for v in p.static(silent=True)],
@@ -280,6 +289,7 @@ class AssemblyKind(Kind):
             'kG0': lambda a: a.calc_kG0(silent=True),
             'kM': lambda a: a.calc_kM(silent=True),
             'k0_conn': lambda a: a.get_k0_conn(),
+            'k0_other_conn': lambda a: a.calc_k0(conn=[], silent=True),       # one evaluation with another connectivity handed over explicitly
             'k0_nofin': lambda a: a.calc_k0(silent=True, finalize=False),
             'kT_nofin': pure(lambda a, c_: a.calc_kT(c=c_, silent=True, finalize=False)),
             'kT': pure(lambda a, c_: a.calc_kT(c=c_, silent=True)),
@@ -580,7 +590,7 @@ SIG_STALE_CC = 'C20:ConeCyl-cached-linear-matrices-survive-a-definition-change'
 SIG_STALE_PLY = 'C20:Panel-derived-ply-lists-survive-a-change-of-plyt-laminaprop-stack'
 
 
-KINDS = {k.name: k for k in [PanelKind('plate'), PanelKind('cpanel'), AssemblyKind(), BayKind('b1d'), BayKind('b1d_base'),
+KINDS = {k.name: k for k in [PanelKind('plate'), PanelKind('cpanel'), PanelKind('plate', ortho=True), AssemblyKind(), BayKind('b1d'), BayKind('b1d_base'),
                              BayKind('b2d'), BayKind('t2d'), ConeCylKind(0.0), ConeCylKind(20.0),
                              ConeCylKind(0.0, 'fsdt_donnell_bc1'), ConeCylKind(20.0, 'clpt_donnell_bc1', 'presc'),
                              ConeCylKind(0.0, 'clpt_donnell_bc1', 'ortho'), AnalysisKind(), AnalysisKind(1.0)]}
@@ -588,7 +598,7 @@ KINDS = {k.name: k for k in [PanelKind('plate'), PanelKind('cpanel'), AssemblyKi
 
 # ----------------------------------------------------------------------------------------------- exploration
 # quick tier: every call is tried first, but only these state-sensitive calls are tried as the following call
-PROBE = {'nl:fast', 'nl:late_first', 'nl:diverge_first', 'nl:fast_then_diverge', 'eig:lb', 'fint.5', 'uvw_full.5', 'k0', 'kM', 'kA', 'kT', 'fint', 'fext', 'static', 'uvw', 'stress', 'uvw_skin_grid', 'uvw_skin', 'uvw_flange', 'k0_conn', 'kG0c', 'cA',
+PROBE = {'kT_table', 'fint_table', 'k0_other_conn', 'nl:fast', 'nl:late_first', 'nl:diverge_first', 'nl:fast_then_diverge', 'eig:lb', 'fint.5', 'uvw_full.5', 'k0', 'kM', 'kA', 'kT', 'fint', 'fext', 'static', 'uvw', 'stress', 'uvw_skin_grid', 'uvw_skin', 'uvw_flange', 'k0_conn', 'kG0c', 'cA',
          'uvw_grid', 'eig:freq_dense'}
 
 
